@@ -55,10 +55,16 @@ def c03(tier):
 
 
 def c08(tier):
-    if tier == "quick":
+    q = tier == "quick"
+    # the replies of the default handlers are written by the read goroutine while another goroutine writes messages:
+    # every pong must still carry the ping's payload (schedules of the lock-protocol model with fed pings and closes)
+    def cx():
+        v, cov, _ = conc.run_conc_check("C08", tier, 300 if q else 6000, 100 if q else 1500, light=True)
+        return v, cov
+    if q:
         return reader.run_reader_check("C08", tier, [("MC_C08.tla", "MC_C08_quick.cfg")], mult=1, max_progs=4000,
-                                       assumptions=BASE_ASSUME)
-    return reader.run_reader_check("C08", tier, [("MC_C08.tla", "MC_C08_thorough.cfg")], mult=1, assumptions=BASE_ASSUME)
+                                       assumptions=BASE_ASSUME + CONC_ASSUME[:1], extra=cx)
+    return reader.run_reader_check("C08", tier, [("MC_C08.tla", "MC_C08_thorough.cfg")], mult=1, assumptions=BASE_ASSUME + CONC_ASSUME[:1], extra=cx)
 
 
 W = "MC_W.tla"
